@@ -37,6 +37,8 @@ func ObjModules() map[string]tengo.Object {
 		// two different host tables without a module name
 		"immamod": &tengo.ImmutableMap{Value: map[string]tengo.Object{"who": &tengo.String{Value: "A"}}},
 		"immbmod": &tengo.ImmutableMap{Value: map[string]tengo.Object{"who": &tengo.String{Value: "B"}}},
+		// a NAMED module table handed out by a custom Importable (not registered as a BuiltinModule of the module map)
+		"namedmod": (&tengo.BuiltinModule{Attrs: map[string]tengo.Object{"region": &tengo.String{Value: "eu-1"}, "n": &tengo.Int{Value: 3}}}).AsImmutableMap("namedmod"),
 		"bytesmod": &tengo.Bytes{Value: []byte("a\x00\xff")},
 		"timemod":  &tengo.Time{Value: time.Unix(1, 5).UTC()},
 		"charmod":  &tengo.Char{Value: 0x1F600},
